@@ -3,6 +3,7 @@ package monitor
 import (
 	"bytes"
 	"fmt"
+	"runtime"
 	"runtime/debug"
 	"sync"
 	"sync/atomic"
@@ -29,7 +30,10 @@ import (
 func concurrentProbe(g, iters int, fn func(w, i int) string) []string {
 	out := make([]string, g)
 	var wg sync.WaitGroup
-	start := make(chan struct{})
+	// A spinning barrier: a closed channel makes the waiters runnable one wake-up at a time
+	// (microseconds apart); here every worker is already running on a processor and leaves
+	// the barrier within nanoseconds of the others.
+	var ready, release int32
 	for w := 0; w < g; w++ {
 		wg.Add(1)
 		go func(w int) {
@@ -39,7 +43,12 @@ func concurrentProbe(g, iters int, fn func(w, i int) string) []string {
 					out[w] = fmt.Sprintf("panic:%s@%s: %v", core.PanicClass(r), core.RepoFrame(debug.Stack()), r)
 				}
 			}()
-			<-start
+			atomic.AddInt32(&ready, 1)
+			for spins := 0; atomic.LoadInt32(&release) == 0; spins++ {
+				if spins&0xff == 0xff {
+					runtime.Gosched()
+				}
+			}
 			for i := 0; i < iters; i++ {
 				if msg := fn(w, i); msg != "" {
 					out[w] = msg
@@ -48,7 +57,10 @@ func concurrentProbe(g, iters int, fn func(w, i int) string) []string {
 			}
 		}(w)
 	}
-	close(start)
+	for atomic.LoadInt32(&ready) < int32(g) {
+		runtime.Gosched()
+	}
+	atomic.StoreInt32(&release, 1)
 	wg.Wait()
 	var msgs []string
 	for _, m := range out {
@@ -177,8 +189,8 @@ func cryptoConcurrentUnits(oracle string) []core.Unit {
 	for alg := 1; alg <= 3; alg++ {
 		alg := alg
 		us = append(us, core.Unit{Name: fmt.Sprintf("concurrent-alg%d", alg), Weight: 60, Run: func(c *core.Ctx) {
-			for i := 0; i < c.Pick(3, 12); i++ {
-				k := &core.Case{Oracle: oracle, Target: "security", I: []int64{int64(alg), int64(c.R.Uint64() >> 1), 8, int64(c.Pick(4000, 20000)), int64([]int{2, 2, 3, 8}[i%4])}}
+			for i := 0; i < c.Pick(4, 12); i++ {
+				k := &core.Case{Oracle: oracle, Target: "security", I: []int64{int64(alg), int64(c.R.Uint64() >> 1), 8, int64(c.Pick(3000, 20000)), int64([]int{2, 1, 3, 8}[i%4])}}
 				c.Do(k)
 				c.NonTrivial(k.Hash())
 			}
@@ -240,13 +252,16 @@ func zeroRuleUnit(mac bool) core.Unit {
 		if !refReady(c) {
 			return
 		}
-		for i := 0; i < c.Pick(6, 40); i++ {
-			key, count, bearer, dir, ok := refcrypto.ZeroRuleParams(c.R.Uint64, mac, 1<<21)
+		targets := []uint32{0, 0, 0, 1, 2, 3, 4, 5, 6, 7, 8, 0x7ffffffe, 0x7ffffffd}
+		for i := 0; i < c.Pick(len(targets)*2, len(targets)*8); i++ {
+			target := targets[i%len(targets)]
+			key, count, bearer, dir, ok := refcrypto.FeedbackParams(c.R.Uint64, mac, target, 1<<21)
 			if !ok {
-				c.Inconclusive("no ZUC zero-rule parameters found in 2^21 draws")
+				c.Inconclusive("no ZUC parameters with the wanted first-round feedback found in 2^21 draws")
 				return
 			}
 			before := atomic.LoadInt64(&refcrypto.ZeroRuleEvents)
+			beforeEdge := atomic.LoadInt64(&refcrypto.EdgeFeedbackEvents)
 			for _, n := range []int{0, 1, 8, 32, 33, 256, 1000} {
 				for api := int64(0); api < 2; api++ {
 					nb := n
@@ -266,6 +281,180 @@ func zeroRuleUnit(mac bool) core.Unit {
 			if atomic.LoadInt64(&refcrypto.ZeroRuleEvents) > before {
 				c.Count("zuc_zero_rule_inputs", 1)
 			}
+			if atomic.LoadInt64(&refcrypto.EdgeFeedbackEvents) > beforeEdge {
+				c.Count("zuc_edge_feedback_inputs", 1)
+			}
 		}
+	}}
+}
+
+// oracle "many-keys" (C06 and C07): I=[alg, seed, nKeys] — one call under key A, then one
+// call under each of nKeys other pairwise distinct keys, then key A again, and a sample of the
+// earlier keys once more; every result is compared with the reference. State the library keeps
+// per key (schedules, tables with eviction) is exercised past any plausible capacity.
+func cryptoManyKeys(c *core.Ctx, k *core.Case, mac bool) {
+	if !refReady(c) {
+		return
+	}
+	alg, n := int(k.I[0]), int(k.I[2])
+	r := prng.New(uint64(k.I[1]))
+	type call struct {
+		key         [16]byte
+		count       uint32
+		bearer, dir uint32
+		msg         []byte
+	}
+	mk := func(i int) call {
+		var cl call
+		copy(cl.key[:], r.Bytes(16))
+		cl.key[0], cl.key[1], cl.key[2] = byte(i), byte(i>>8), byte(i>>16) // pairwise distinct
+		cl.count, cl.bearer, cl.dir = r.Uint32(), uint32(r.Intn(32)), uint32(r.Intn(2))
+		cl.msg = r.Bytes(r.Range(1, 40))
+		return cl
+	}
+	check := func(cl *call, when string) bool {
+		nb := 8 * len(cl.msg)
+		if mac {
+			var want uint32
+			switch alg {
+			case 1:
+				want = refcrypto.EIA1(cl.key, cl.count, cl.bearer, cl.dir, cl.msg, nb)
+			case 2:
+				want = refcrypto.EIA2(cl.key, cl.count, cl.bearer, cl.dir, cl.msg)
+			case 3:
+				want = refcrypto.EIA3(cl.key, cl.count, cl.bearer, cl.dir, cl.msg, nb)
+			}
+			m, err := security.NASMacCalculate(uint8(alg), cl.key, cl.count, uint8(cl.bearer), uint8(cl.dir), cloneB(cl.msg))
+			if err != nil || len(m) != 4 || uint32(m[0])<<24|uint32(m[1])<<16|uint32(m[2])<<8|uint32(m[3]) != want {
+				c.Fail(k, fmt.Sprintf("many-keys-mac-mismatch:alg%d", alg), fmt.Sprintf("%s (%d distinct keys used in this process in between): MAC %x (err %v), 128-EIA%d gives %08x; key %x", when, n, m, err, alg, want, cl.key))
+				return false
+			}
+			return true
+		}
+		var want []byte
+		switch alg {
+		case 1:
+			want = refcrypto.EEA1(cl.key, cl.count, cl.bearer, cl.dir, cl.msg, nb)
+		case 2:
+			want = refcrypto.EEA2(cl.key, cl.count, cl.bearer, cl.dir, cl.msg)
+		case 3:
+			want = refcrypto.EEA3(cl.key, cl.count, cl.bearer, cl.dir, cl.msg, nb)
+		}
+		buf := cloneB(cl.msg)
+		if err := security.NASEncrypt(uint8(alg), cl.key, cl.count, uint8(cl.bearer), uint8(cl.dir), buf); err != nil || !bytes.Equal(buf, want) {
+			c.Fail(k, fmt.Sprintf("many-keys-ciphertext-mismatch:alg%d", alg), fmt.Sprintf("%s (%d distinct keys used in this process in between): ciphertext %s (err %v), 128-EEA%d gives %s; key %x", when, n, hx(buf), err, alg, hx(want), cl.key))
+			return false
+		}
+		return true
+	}
+	first := mk(0)
+	if !check(&first, "first call under key A") {
+		return
+	}
+	var kept []call
+	for i := 1; i <= n; i++ {
+		cl := mk(i)
+		if !check(&cl, fmt.Sprintf("call under key number %d", i)) {
+			return
+		}
+		if i%97 == 0 {
+			kept = append(kept, cl)
+		}
+		if i&0xff == 0 {
+			c.J.Tick()
+		}
+	}
+	if !check(&first, "key A again") {
+		return
+	}
+	for i := range kept {
+		if !check(&kept[i], "an earlier key again") {
+			return
+		}
+	}
+	c.Eval(int64(n + 2 + len(kept)))
+	c.Count("many_keys_histories", 1)
+}
+
+func c06ManyKeys(c *core.Ctx, k *core.Case) { cryptoManyKeys(c, k, false) }
+func c07ManyKeys(c *core.Ctx, k *core.Case) { cryptoManyKeys(c, k, true) }
+
+func cryptoManyKeysUnit() core.Unit {
+	return core.Unit{Name: "many-keys", Weight: 60, Run: func(c *core.Ctx) {
+		for alg := 1; alg <= 3; alg++ {
+			for _, n := range []int{300, 1100, c.Pick(3000, 70000)} {
+				k := &core.Case{Oracle: "many-keys", Target: "security", I: []int64{int64(alg), int64(c.R.Uint64() >> 1), int64(n)}}
+				c.Do(k)
+				c.NonTrivial(k.Hash())
+			}
+		}
+	}}
+}
+
+// oracle "cold-concurrent": S=[kinds] I=[seed, workers, items] — the property's own operations
+// (the item kinds of the C19 workload) entered by all workers at once in a process in which
+// the library has not been used yet (the unit is Fresh; so is a replay). Every worker runs
+// ALL items, each in its own order; afterwards the items are recomputed sequentially and
+// every worker's digest of every item must equal the sequential one. Lazily built package
+// state (tables filled on first use, caches) is then built under contention.
+func coldConcurrent(c *core.Ctx, k *core.Case) {
+	sp := mustSpec(c)
+	if sp == nil {
+		return
+	}
+	r := prng.New(uint64(k.I[0]))
+	g, n := int(k.I[1]), int(k.I[2])
+	sh := &c19Shared{sp: sp, gmm: dispatchable(sp)}
+	for i := range sh.keys {
+		copy(sh.keys[i][:], r.Bytes(16))
+	}
+	items := make([]c19Item, n)
+	for i := range items {
+		items[i] = c19Item{kind: k.S[i%len(k.S)], seed: r.Uint64(), region: -1}
+	}
+	res := make([][]uint64, g)
+	perms := make([][]int, g)
+	for w := range res {
+		res[w] = make([]uint64, n)
+		perms[w] = r.Perm(n)
+	}
+	msgs := concurrentProbe(g, n, func(w, i int) string {
+		j := perms[w][i]
+		res[w][j] = c19Run(sh, items[j])
+		return ""
+	})
+	c.Eval(int64(g * n))
+	c.Count("cold_concurrent_calls", int64(g*n))
+	if len(msgs) > 0 {
+		c.Fail(k, "cold-concurrent-"+msgs[0][:min3(len(msgs[0]), 100)], msgs[0])
+		return
+	}
+	for j := range items {
+		want := c19Run(sh, items[j])
+		for w := 0; w < g; w++ {
+			if res[w][j] != want {
+				c.Fail(k, "cold-concurrent-result-differs:"+items[j].kind, fmt.Sprintf("item %d (kind %s, seed %d): worker %d of %d computed digest %#x when all workers entered the library at once in a fresh process; the sequential result is %#x", j, items[j].kind, items[j].seed, w, g, res[w][j], want))
+				return
+			}
+		}
+	}
+}
+
+// coldUnit is the Fresh unit that runs the cold-concurrent oracle for the given kinds.
+func coldUnit(target string, kinds ...string) core.Unit {
+	return coldUnitN(target, 0, 8, kinds...)
+}
+
+// coldUnitN: idx distinguishes several such units of one property (each is a process of
+// its own, i.e. one more cold start); workers is the number of goroutines released at once.
+func coldUnitN(target string, idx, workers int, kinds ...string) core.Unit {
+	name := "cold-concurrent"
+	if idx > 0 {
+		name = fmt.Sprintf("cold-concurrent-%d", idx)
+	}
+	return core.Unit{Name: name, Weight: 30, Fresh: true, Run: func(c *core.Ctx) {
+		k := &core.Case{Oracle: "cold-concurrent", Target: target, S: kinds, I: []int64{int64(c.R.Uint64() >> 1), int64(workers), int64(c.Pick(200, 2000))}}
+		c.Do(k)
+		c.NonTrivial(k.Hash())
 	}}
 }
